@@ -69,6 +69,7 @@ type world struct {
 	killEpoch  map[int]int          // locker -> number of connection kills so far
 	when       map[int64]time.Time  // seq -> virtual time
 	waiting    map[string]int       // "locker/name" -> WithContext calls in progress
+	callers    map[int]int          // locker -> goroutines of this history that use it
 	nextHolder int
 	trace      []string
 	stats      map[string]int64
@@ -291,13 +292,11 @@ func oneHistory(run *mon.Run, t *testing.T, idx int, p params) {
 
 func history(run *mon.Run, name string, p params) (string, bool) {
 	rng := rand.New(rand.NewSource(p.seed))
-	rueidis.VerifSetQueueType("flowbuffer")
-	defer rueidis.VerifSetQueueType("")
 	srv := fakeredis.New(fakeredis.Options{Seed: p.seed}, addr)
 	defer srv.Close()
 	node := srv.Node(addr)
 	w := &world{run: run, srv: srv, name: name, cfg: p.cfg(), connOf: map[int64]int{}, keys: map[string]keyState{}, holders: map[int]*holder{}, byVal: map[string]*holder{},
-		unclean: map[string]string{}, killEpoch: map[int]int{}, when: map[int64]time.Time{}, waiting: map[string]int{}, stats: map[string]int64{}, majority: int(p.majority), total: int(p.majority)*2 - 1}
+		unclean: map[string]string{}, killEpoch: map[int]int{}, when: map[int64]time.Time{}, waiting: map[string]int{}, callers: map[int]int{}, stats: map[string]int64{}, majority: int(p.majority), total: int(p.majority)*2 - 1}
 	srv.OnEvent = w.onEvent
 
 	validity, interval := 4*time.Second, time.Second
@@ -445,19 +444,18 @@ func history(run *mon.Run, name string, p params) (string, bool) {
 			}
 		}
 		w.mu.Lock()
-		sib := w.waiting[fmt.Sprintf("%d/%s", l, n)] - 1
-		w.mu.Unlock()
-		sibs := "0"
-		if sib > 0 {
-			sibs = "1+"
+		sibs := "1"
+		if w.callers[l] > 1 {
+			sibs = "2+"
 		}
+		w.mu.Unlock()
 		tracking := "loop"
 		if p.nocache {
 			tracking = "nocache"
 		} else if p.noloop {
 			tracking = "noloop"
 		}
-		run.Violation("waiter-not-woken", fmt.Sprintf("tracking=%s sibling-waiters=%s invalidation-pushed-after-last-command=%s", tracking, sibs, pushAfter),
+		run.Violation("waiter-not-woken", fmt.Sprintf("tracking=%s goroutines-on-the-locker=%s invalidation-pushed-after-last-command=%s", tracking, sibs, pushAfter),
 			map[string]any{"case": name, "config": p.cfg(), "locker": l, "name": n, "waited_virtual": waited.String(), "err": fmt.Sprint(err), "live_holders_now": live, "trace": tr, "log": lg,
 				"goroutines_30s_before": func() string { snapMu.Lock(); defer snapMu.Unlock(); return snapshot }()})
 	}
@@ -482,6 +480,9 @@ func history(run *mon.Run, name string, p params) (string, bool) {
 			if p.herd {
 				gs = 2
 			}
+			w.mu.Lock()
+			w.callers[l] = gs
+			w.mu.Unlock()
 			for g := 0; g < gs; g++ {
 				wg.Add(1)
 				seed := rng.Int63()
@@ -826,6 +827,7 @@ func TestC34(t *testing.T) {
 			"(force) ForceWithContext take-over; (expiry) ExtendInterval > KeyValidity. Oracles: exclusion at every acquisition return and every 130 ms sampled instant inside clean windows; release order checked synchronously in the server's exec hook; "+
 			"loss noticed within 1 s virtual (cached) ; every waiter acquires within 10 virtual minutes of bounded holds; bubble deadlock = hang. A case is one history, non-trivial when a waiter acquired after waiting and >= 2 acquisitions happened")
 	defer run.Finish()
+	rueidis.VerifSetQueueType("flowbuffer") // set once: pipes are created from background goroutines too
 	run.Assume("fakeredis+minilua execute the shipped acquire/extend/delete scripts like Redis does, including tracking of keys read inside scripts and invalidation on SET/DEL/expiry",
 		"fakeredis does not send invalidations for PEXPIREAT (Redis does); the lockers therefore see fewer spurious wake-ups than on a real server",
 		"no server latency is injected: TryNextAfter never elapses, so 'outside fault windows' holds for every acquisition that was not hit by a connection kill")
